@@ -39,6 +39,7 @@ void hx_child_begin(const vs_dev_t *devs, int ndevs, int record_trace, void *(*e
 	c.devs = devs; c.ndevs = ndevs; c.record_trace = record_trace; c.early_fn = early_fn; c.early_budget = early_budget;
 	c.horizon_us = horizon_us;
 	vs_begin(&c);
+	if (record_trace) vs_window(0);   /* E1 harnesses open the exploration window around their concurrent phase */
 #define NAME(x) vs_name_lock(&x, #x)
 	/* fixed registration order => stable lock indices */
 	NAME(bidib_trains_rwlock); NAME(bidib_boards_rwlock);
